@@ -89,10 +89,11 @@ func InitTimeoutParamsFromConfig(conf *viper.Viper) *TimeoutParams {
 // Errors
 
 var (
-	ErrInvalidProposalSignature = errors.New("Error invalid proposal signature")
-	ErrInvalidProposalPOLRound  = errors.New("Error invalid proposal POL round")
-	ErrAddingVote               = errors.New("Error adding vote")
-	ErrVoteHeightMismatch       = errors.New("Error vote height mismatch")
+	ErrInvalidProposalSignature  = errors.New("Error invalid proposal signature")
+	ErrInvalidProposalPOLRound   = errors.New("Error invalid proposal POL round")
+	ErrInvalidProposalPartsTotal = errors.New("Error invalid proposal block parts total")
+	ErrAddingVote                = errors.New("Error adding vote")
+	ErrVoteHeightMismatch        = errors.New("Error vote height mismatch")
 )
 
 //-----------------------------------------------------------------------------
@@ -1348,6 +1349,11 @@ func (cs *ConsensusState) finalizeCommit(height int64) {
 
 //-----------------------------------------------------------------------------
 
+// A block has at least one part and no more parts than bytes.
+func validPartsTotal(total int) bool {
+	return 0 < total && total <= types.MaxBlockSize
+}
+
 func (cs *ConsensusState) defaultSetProposal(proposal *types.Proposal) error {
 	// Already have one
 	// TODO: possibly catch double proposals
@@ -1369,6 +1375,12 @@ func (cs *ConsensusState) defaultSetProposal(proposal *types.Proposal) error {
 	if proposal.POLRound != -1 &&
 		(proposal.POLRound < 0 || proposal.Round <= proposal.POLRound) {
 		return ErrInvalidProposalPOLRound
+	}
+
+	// The parts header says how much to allocate for the block's parts: refuse absurd counts
+	// (negative: makeslice panic on this goroutine; huge: out of memory) even from the round's proposer.
+	if !validPartsTotal(proposal.BlockPartsHeader.Total) {
+		return ErrInvalidProposalPartsTotal
 	}
 
 	// Verify signature
